@@ -12,13 +12,13 @@ from bubus.helpers import retry  # noqa: E402
 
 LEVEL = 'model_checking'
 RULE = ('retries in {0,1,2,3} x wait in {0, 0.5} x backoff_factor in {1, 2, 0.5, 0 (decaying / vanishing waits)} x timeout 1 s x retry_on in {None, (), (Listed,), (Listed, TimeoutError)}; at every attempt the wrapped function asks '
-        'the explorer for its outcome in {ok, slow ok (0.7 x timeout), Listed error, Unlisted error, overrun (sleeps past the timeout), caller cancelled during the attempt, Listed error then caller cancelled during the '
+        'the explorer for its outcome in {ok, slow ok (0.7 x timeout), Listed error, Unlisted error, overrun (sleeps past the timeout), overrun answered by an Unlisted error raised at the cut-off, caller cancelled during the attempt, Listed error then caller cancelled during the '
         'back-off}: these are free choices, so EVERY outcome sequence is enumerated. Compared with an independent reference of the documented semantics: number and virtual start times of calls, '
         'return value / identity of the raised exception, cancellation never retried or swallowed. non-trivial = at least two attempts or a cancellation; distinct = distinct outcome sequences per configuration')
 ASSUMPTIONS = ['an overrun when retry_on is given without TimeoutError may either propagate at once (unlisted exception) or be retried (failed attempt): the statement allows both readings',
                'virtual time: the function body itself takes no time except where it sleeps']
 DISTINCT_BY_SCENARIO = True
-OUTCOMES = ['ok', 'listed', 'unlisted', 'overrun', 'cancel_attempt', 'cancel_backoff', 'slow_ok']
+OUTCOMES = ['ok', 'listed', 'unlisted', 'overrun', 'cancel_attempt', 'cancel_backoff', 'slow_ok', 'overrun_unlisted']
 
 
 class Listed(Exception):
@@ -86,6 +86,17 @@ class RetryWorld:
             if o == 'overrun':
                 await asyncio.sleep(p['timeout'] * 3)
                 w.rec('overrun-body-continued', k)
+                return ('late', k)
+            if o == 'overrun_unlisted':
+                # overruns, and answers the cut-off by raising an exception of its own (clean-up code that fails): that exception, not a TimeoutError,
+                # is what the attempt ends with
+                try:
+                    await asyncio.sleep(p['timeout'] * 3)
+                except asyncio.CancelledError:
+                    ex = Unlisted(f'unlisted at cut-off {k}')
+                    w.raised[id(ex)] = ('unlisted', k)
+                    w.keep.append(ex)
+                    raise ex
                 return ('late', k)
             if o == 'cancel_attempt':
                 loop.call_later(0.25, w.caller.cancel)
@@ -182,6 +193,11 @@ def reference(p, outcomes):
             if p['retry_on'] != 'none' or last:
                 return (k + 1, starts, ('raised', ('unlisted', k)))
             return go(k + 1, t + wait, starts, allow_timeout_retry)
+        if o == 'overrun_unlisted':
+            # ends at the cut-off instant with an Unlisted exception: propagates at once when retry_on is given, a failed attempt like any other when it is not
+            if p['retry_on'] != 'none' or last:
+                return (k + 1, starts, ('raised', ('unlisted', k)))
+            return go(k + 1, t + p['timeout'] + wait, starts, allow_timeout_retry)
         if o == 'overrun':
             t_end = t + p['timeout']
             retry_it = p['retry_on'] in ('none', 'listed+timeout') or allow_timeout_retry
